@@ -212,7 +212,11 @@ func (e *Evidence) Violation(desc string, files map[string]string) string {
 		parts = append(parts, k, files[k])
 	}
 	h := Hash(parts...)
-	dir := filepath.Join(VerifDir(), "replay", e.Property, h)
+	base := filepath.Join(VerifDir(), "replay")
+	if v := os.Getenv("VERIF_REPLAY_OUT"); v != "" {
+		base = v // mutant / soak runs keep their findings out of the committed replay store
+	}
+	dir := filepath.Join(base, e.Property, h)
 	os.MkdirAll(dir, 0o755)
 	WriteTree(dir, files)
 	os.WriteFile(filepath.Join(dir, "DESCRIPTION.txt"), []byte(desc+"\n"), 0o644)
